@@ -666,8 +666,12 @@ package engine
 //@       len(stack) >= 1 && stack[len(stack) - 1] == argof(found, 1) && len(argof(found, 1).delayed) == 0
 //@   at-call (*promiseStack).popUntil requires[cuts-to-parent] a1 == popped.cutParent && a1 != nil
 //@   at-call (*promiseStack).recover requires[exact-error] a1 == popped.err && len(popped.delayed) == 0
+//@   bind cerr = context.Context.Err#1
+//@   loop 1 maintains[an-error-no-handler-accepted-ends-the-run] !(called(rerr) && rerr != nil)
 //@   ensures[true-has-no-error] ok ==> err == nil
 //@   ensures[error-origin] err != nil && called(rerr) ==> err == rerr
+//@   ensures[an-unhandled-error-is-returned] called(rerr) && rerr != nil ==> !ok && err == rerr
+//@   ensures[a-cancelled-run-reports-the-context-s-error] called(cerr) ==> !ok && err == cerr
 
 //@ ---------------------------------------------------------------- catch/3, throw/1, call/N (C03, C04)
 
@@ -1742,6 +1746,7 @@ package engine
 //@   at-call (*Env).unify#2 requires[arguments-pairwise-left-to-right] a1 == Compound.Arg(rx as Compound, local(i, int)) && a2 == Compound.Arg(ry as Compound, local(i, int)) && a3 == occursCheck
 //@   at-call (*Env).unify#3 requires[a-variable-on-the-right-is-treated-as-on-the-left] a0 == e && a1 == ry && a2 == rx && a3 == occursCheck
 //@   loop 1 invariant 0 <= i && (i == 0 || i <= Compound.Arity(rx as Compound)) && (i == 0 ==> local(e, *Env) == e)
+//@   loop 1 maintains[goes-on-to-the-next-pair-only-if-this-pair-unified] called(aenv) && aok
 //@   ensures[a-variable-unifies-with-itself] rx is Variable && rx == ry ==> result1 && result0 == e
 //@   ensures[occurs-check] rx is Variable && rx != ry && occursCheck && contains(ry, rx, e) ==> !result1 && result0 == e
 //@   ensures[binds-the-variable-to-the-other-side] rx is Variable && rx != ry && !(occursCheck && contains(ry, rx, e)) ==>
